@@ -9,6 +9,8 @@ namespace ArrowModel.C07
 /-- every element is a byte -/
 def Bytes (bs : List Nat) : Prop := ∀ b ∈ bs, b < 256
 
+instance (bs : List Nat) : Decidable (Bytes bs) := inferInstanceAs (Decidable (∀ b ∈ bs, b < 256))
+
 def bytesB (bs : List Nat) : Bool := bs.all (· < 256)
 
 /-! ### unsigned lexicographic order on byte strings (`<[u8] as Ord>`), the UNSIGNED
